@@ -74,6 +74,43 @@ theorem c17_kind_changing_conversion_differs :
   · decide
   · exact ⟨_, rfl⟩
 
+/-- the agreement-domain guard is decidable for the two cast paths of the driver instance
+(numpy's `copyto` / element assignment on f8, f4, i8, i4): it holds when no selected field is
+converted from a float to an integer dtype and every int64 cell converted to int32 fits. -/
+theorem c17_castOK_driver_instance (o : Opts Nat DT) (f : File Nat DT Int)
+    (hkind : ∀ s ∈ selected o f.schema, ¬ (isFloatDT s.2.2.1 = true ∧ isFloatDT s.2.2.2 = false))
+    (hfit : ∀ s ∈ selected o f.schema, s.2.2.1 = DT.i8 → s.2.2.2 = DT.i4 →
+      ∀ v ∈ colT f.rows s.1, -2147483648 ≤ v ∧ v ≤ 2147483647) :
+    CastOK castCell castCopyCell o f ∧ CastOK castCell castAssignCell o f := by
+  constructor
+  · intro s hs v _
+    have := hkind s hs
+    unfold castCopyCell
+    cases h1 : isFloatDT s.2.2.1 <;> cases h2 : isFloatDT s.2.2.2 <;> simp_all
+  · intro s hs v hv
+    unfold castAssignCell
+    cases ha : s.2.2.1 <;> cases hb : s.2.2.2 <;> simp only []
+    have := hfit s hs ha hb v hv
+    have hno : ¬ (v < -2147483648 ∨ 2147483647 < v) := by omega
+    simp [hno, castCell, wrap32]
+    omega
+
+/-- without a conversion map (and for exception-listed fields) the guard only asks that both cast
+paths are the identity on equal dtypes -/
+theorem c17_castOK_of_no_conversion (castX : D → D → V → Except Err V) (o : Opts N D) (f : File N D V)
+    (hconv : o.conv = []) (hid : ∀ d v, castX d d v = .ok (cast d d v)) :
+    CastOK cast castX o f := by
+  intro s hs v _
+  have h5 := (selectedFrom_idx o 0 f.schema s hs).2.2.2.2
+  have : s.2.2.2 = s.2.2.1 := by
+    rw [h5]
+    unfold targetDt
+    split
+    · rfl
+    · simp [hconv]
+  rw [this]
+  exact hid _ _
+
 /-- the block size must be positive: with `bs = 0` the row loop raises ZeroDivisionError on a
 non-empty file -/
 theorem c17_zero_block_is_error (fs : P → Option (File N D V)) (p : P) (o : Opts N D) (f : File N D V)
@@ -944,6 +981,73 @@ theorem C17.mem_selectedFrom (o : Opts N D) (k : Nat) (sch : List (N × D)) (i :
       · simp [selectedFrom, hg, this]
       · simp [selectedFrom, hg, this]
 
+/-- one half of `Dataset.load_data` (loader with the keep-field list `keep`, then the renaming loop
+with the dictionary `ren`) on npy files of one layout: it returns, and every name `r` that is not
+renamed away and whose original name is in `keep` and is field `i` of the files is present with the
+converted cells of every row of every listed file, once, in file order. -/
+theorem C17.loadPart_spec (mode : Mode) (fs : P → Option (File N D V)) (bs : Nat) (hbs : 0 < bs)
+    (c : DsCfg N D) (keep : List N) (ren : List (N × N)) (sch : List (N × D))
+    (first : P × File N D V) (rest : List (P × File N D V))
+    (hnd : (sch.map (·.1)).Nodup) (hcast : ∀ d v, cast d d v = v) (hprom : ∀ d, promote d d = d)
+    (hfiles : ∀ qf ∈ first :: rest, C17.GoodFile castCopy castAssign cast fs
+      ⟨some keep, c.conv, excOrig ren c.exc⟩ sch qf)
+    (h1 : (ren.map (·.1)).Nodup) (h2 : (ren.map (·.2)).Nodup)
+    (h3 : ∀ p ∈ ren, ∀ q ∈ ren, p.2 ≠ q.1) (h4 : ∀ p ∈ ren, p.2 ∉ sch.map (·.1)) :
+    ∃ a', loadPart (npyLoad castCopy castAssign cast promote mode fs bs) ((first :: rest).map (·.1)) keep ren c
+        = .ok (some a') ∧
+      ∀ r, r ∉ ren.map (·.1) → C17.origOf ren r ∈ keep →
+        ∀ i dt, sch[i]? = some (C17.origOf ren r, dt) →
+          ({ name := r, dt := targetDt c.conv (excOrig ren c.exc) (C17.origOf ren r) dt,
+             cells := (colT ((first :: rest).map (·.2.rows)).flatten i).map
+               (cast dt (targetDt c.conv (excOrig ren c.exc) (C17.origOf ren r) dt)) } : Col N D V)
+            ∈ a'.cols := by
+  let o : Opts N D := ⟨some keep, c.conv, excOrig ren c.exc⟩
+  let rows := ((first :: rest).map (·.2.rows)).flatten
+  have hload := c17_rows_once_in_order castCopy castAssign cast promote mode fs bs hbs o sch first rest
+    hnd hcast hprom hfiles
+  have hnames : (specArr cast o ⟨sch, rows⟩).cols.map (·.name) =
+      (sch.map (·.1)).filter (fun n => isKept o.keep n) := by
+    simp only [specArr, specCols, selected, List.map_map]
+    exact selectedFrom_names o 0 sch
+  have hnamesnd : ((specArr cast o ⟨sch, rows⟩).cols.map (·.name)).Nodup := by
+    rw [hnames]; exact hnd.filter _
+  have hsubnames : ∀ n, n ∈ (specArr cast o ⟨sch, rows⟩).cols.map (·.name) → n ∈ sch.map (·.1) := by
+    intro n hn; rw [hnames] at hn; exact (List.mem_filter.mp hn).1
+  obtain ⟨a', hren, _, _, hchar⟩ := c17_rename_all ren (specArr cast o ⟨sch, rows⟩) h1 h2 hnamesnd h3
+    (fun p hp _ hcon => h4 p hp (hsubnames _ hcon))
+  refine ⟨a', ?_, ?_⟩
+  · simp [loadPart, o, rows] at hload hren ⊢
+    simp [hload, hren]
+  · intro r hnk hkeep i dt hi
+    have hkept : isKept o.keep (C17.origOf ren r) = true := by
+      simp [o, isKept, hkeep]
+    have hsel := C17.mem_selectedFrom o 0 sch i _ dt hi hkept
+    simp only [Nat.zero_add] at hsel
+    rw [hchar]
+    refine ⟨⟨C17.origOf ren r, targetDt o.conv o.exc (C17.origOf ren r) dt,
+      (colT rows i).map (cast dt (targetDt o.conv o.exc (C17.origOf ren r) dt))⟩, ?_, ?_⟩
+    · simp only [specArr, specCols, selected, List.mem_map]
+      exact ⟨_, hsel, rfl⟩
+    · simp [C17.rename_origOf ren r h1 hnk, o, rows]
+
+/-- a name required at a sub-mask of the requested stages is listed -/
+theorem C17.jointNames_mono (table : List (N × Nat)) (a b : Nat) (r : N) (h : r ∈ jointNames table b) :
+    r ∈ jointNames table (a ||| b) ∧ r ∈ jointNames table (b ||| a) := by
+  rw [c17_jointNames_mem] at h
+  obtain ⟨s, hs, hbit⟩ := h
+  have hb : orCheck s b = true := by simpa [orCheck] using hbit
+  constructor
+  · rw [c17_jointNames_mem]
+    refine ⟨s, hs, ?_⟩
+    have := c17_orCheck_or s a b
+    rw [hb, Bool.or_true] at this
+    simpa [orCheck] using this
+  · rw [c17_jointNames_mem]
+    refine ⟨s, hs, ?_⟩
+    have := c17_orCheck_or s b a
+    rw [hb, Bool.true_or] at this
+    simpa [orCheck] using this
+
 /-- **End to end** for the experimental data of a data set whose files are npy files of one layout
 `sch`.  The renaming dictionary does not chain, no new name is a file field, and every field
 required for the analysis stage is neither renamed away nor absent from the files (under its
@@ -972,57 +1076,16 @@ theorem c17_end_to_end (mode : Mode) (fs : P → Option (File N D V)) (bs : Nat)
              cells := (colT ((first :: rest).map (·.2.rows)).flatten i).map
                (cast dt (targetDt c.conv (excOrig c.expRen c.exc) (C17.origOf c.expRen r) dt)) } : Col N D V)
             ∈ a.cols := by
-  -- the loader
-  let o : Opts N D := ⟨some (keepExp st c), c.conv, excOrig c.expRen c.exc⟩
-  let rows := ((first :: rest).map (·.2.rows)).flatten
-  have hload := c17_rows_once_in_order castCopy castAssign cast promote mode fs bs hbs o sch first rest
-    hnd hcast hprom hfiles
-  -- the loaded field names are distinct file fields
-  have hnames : (specArr cast o ⟨sch, rows⟩).cols.map (·.name) =
-      (sch.map (·.1)).filter (fun n => isKept o.keep n) := by
-    simp only [specArr, specCols, selected, List.map_map]
-    exact selectedFrom_names o 0 sch
-  have hnamesnd : ((specArr cast o ⟨sch, rows⟩).cols.map (·.name)).Nodup := by
-    rw [hnames]; exact hnd.filter _
-  have hsubnames : ∀ n, n ∈ (specArr cast o ⟨sch, rows⟩).cols.map (·.name) → n ∈ sch.map (·.1) := by
-    intro n hn; rw [hnames] at hn; exact (List.mem_filter.mp hn).1
-  -- the renaming loop
-  obtain ⟨a', hren, _, _, hchar⟩ := c17_rename_all c.expRen (specArr cast o ⟨sch, rows⟩) h1 h2 hnamesnd h3
-    (fun p hp _ hcon => h4 p hp (hsubnames _ hcon))
-  -- every wanted name is present after renaming
-  have hpresent : ∀ r, (r ∈ jointNames c.merged st.anExp ∨ r ∈ c.keep) → r ∉ c.expRen.map (·.1) →
-      ∀ i dt, sch[i]? = some (C17.origOf c.expRen r, dt) →
-        ({ name := r, dt := targetDt c.conv (excOrig c.expRen c.exc) (C17.origOf c.expRen r) dt,
-           cells := (colT rows i).map
-             (cast dt (targetDt c.conv (excOrig c.expRen c.exc) (C17.origOf c.expRen r) dt)) } : Col N D V)
-          ∈ a'.cols := by
-    intro r hr hnk i dt hi
-    have hkeep : C17.origOf c.expRen r ∈ keepExp st c := by
-      unfold keepExp
-      rw [C17.new2orig_eq_map]
-      refine List.mem_map.mpr ⟨r, ?_, rfl⟩
-      rcases hr with h | h
-      · apply List.mem_append_left
-        rw [c17_jointNames_mem] at h ⊢
-        obtain ⟨s, hs, hbit⟩ := h
-        refine ⟨s, hs, ?_⟩
-        intro hz
-        have := c17_orCheck_or s st.dpExp st.anExp
-        simp only [orCheck, hz, bne_self_eq_false] at this
-        have h2' : (s &&& st.anExp != 0) = true := by simpa using hbit
-        simp [h2'] at this
-      · exact List.mem_append_right _ h
-    have hkept : isKept o.keep (C17.origOf c.expRen r) = true := by
-      simp [o, isKept, hkeep]
-    have hsel := C17.mem_selectedFrom o 0 sch i _ dt hi hkept
-    simp only [Nat.zero_add] at hsel
-    rw [hchar]
-    refine ⟨⟨C17.origOf c.expRen r, targetDt o.conv o.exc (C17.origOf c.expRen r) dt,
-      (colT rows i).map (cast dt (targetDt o.conv o.exc (C17.origOf c.expRen r) dt))⟩, ?_, ?_⟩
-    · simp only [specArr, specCols, selected, List.mem_map]
-      exact ⟨_, hsel, rfl⟩
-    · simp [C17.rename_origOf c.expRen r h1 hnk, o]
-  -- tidy-up keeps them, the assertion passes
+  obtain ⟨a', hpart, hcontent⟩ := C17.loadPart_spec castCopy castAssign cast promote mode fs bs hbs c
+    (keepExp st c) c.expRen sch first rest hnd hcast hprom hfiles h1 h2 h3 h4
+  have hkeep : ∀ r, (r ∈ jointNames c.merged st.anExp ∨ r ∈ c.keep) → C17.origOf c.expRen r ∈ keepExp st c := by
+    intro r hr
+    unfold keepExp
+    rw [C17.new2orig_eq_map]
+    refine List.mem_map.mpr ⟨r, ?_, rfl⟩
+    rcases hr with h | h
+    · exact List.mem_append_left _ (C17.jointNames_mono c.merged st.dpExp st.anExp r h).1
+    · exact List.mem_append_right _ h
   have hreqnames : ∀ r ∈ jointNames c.merged st.anExp,
       r ∈ (tidyUp (jointNames c.merged st.anExp ++ c.keep) a').cols.map (·.name) := by
     intro r hr
@@ -1031,22 +1094,108 @@ theorem c17_end_to_end (mode : Mode) (fs : P → Option (File N D V)) (bs : Nat)
     obtain ⟨i, hi⟩ := List.getElem?_of_mem hfm
     simp only at hfn
     subst hfn
-    have := hpresent r (Or.inl hr) hnk i dt hi
+    have := hcontent r hnk (hkeep r (Or.inl hr)) i dt hi
     simp only [tidyUp, List.mem_map, List.mem_filter, decide_eq_true_eq]
     exact ⟨_, ⟨this, List.mem_append_left _ hr⟩, rfl⟩
   have hmiss : missingKeys ((tidyUp (jointNames c.merged st.anExp ++ c.keep) a').cols.map (·.name))
       (jointNames c.merged st.anExp) = [] := by
     rw [C17.missing_nil_iff]; exact hreqnames
   refine ⟨tidyUp (jointNames c.merged st.anExp ++ c.keep) a', ?_, ?_⟩
-  · simp [loadAndPrepare, loadAndPrepareWith, loadData, loadPart, o, rows] at hload hren ⊢
-    simp [hload, hren, tidyOpt, assertFormat, hmiss]
+  · have hmc : loadPart (npyLoad castCopy castAssign cast promote mode fs bs) ([] : List P) (keepMc st c) c.mcRen c
+        = .ok none := rfl
+    simp only [loadAndPrepare, loadAndPrepareWith, loadData]
+    rw [hpart, hmc]
+    simp [tidyOpt, assertFormat, hmiss]
   · intro r hr hnk i dt hi
-    have := hpresent r hr hnk i dt hi
+    have := hcontent r hnk (hkeep r hr) i dt hi
     simp only [tidyUp, List.mem_filter, decide_eq_true_eq]
     refine ⟨this, ?_⟩
     rcases hr with h | h
     · exact List.mem_append_left _ h
     · exact List.mem_append_right _ h
+
+/-- **End to end, Monte-Carlo half** (MC-only data set): the same for the MC files with the MC
+dictionary; required are the fields of the analysis of experimental *or* MC data, the keep-field
+list is the MC summand of `keepMc` (four stages through `mcRen`). -/
+theorem c17_end_to_end_mc (mode : Mode) (fs : P → Option (File N D V)) (bs : Nat) (hbs : 0 < bs)
+    (st : Stages) (c : DsCfg N D) (sch : List (N × D)) (first : P × File N D V) (rest : List (P × File N D V))
+    (hnd : (sch.map (·.1)).Nodup) (hcast : ∀ d v, cast d d v = v) (hprom : ∀ d, promote d d = d)
+    (hfiles : ∀ qf ∈ first :: rest, C17.GoodFile castCopy castAssign cast fs
+      ⟨some (keepMc st c), c.conv, excOrig c.mcRen c.exc⟩ sch qf)
+    (h1 : (c.mcRen.map (·.1)).Nodup) (h2 : (c.mcRen.map (·.2)).Nodup)
+    (h3 : ∀ p ∈ c.mcRen, ∀ q ∈ c.mcRen, p.2 ≠ q.1) (h4 : ∀ p ∈ c.mcRen, p.2 ∉ sch.map (·.1))
+    (hreq : ∀ r ∈ jointNames c.merged (st.anExp ||| st.anMc),
+      r ∉ c.mcRen.map (·.1) ∧ C17.origOf c.mcRen r ∈ sch.map (·.1)) :
+    ∃ a, loadAndPrepare st (npyLoad castCopy castAssign cast promote mode fs bs) (fun d => .ok d) c
+          [] ((first :: rest).map (·.1)) true = .ok (none, some a) ∧
+      ∀ r, (r ∈ jointNames c.merged (st.anExp ||| st.anMc) ∨ r ∈ c.keep) → r ∉ c.mcRen.map (·.1) →
+        ∀ i dt, sch[i]? = some (C17.origOf c.mcRen r, dt) →
+          ({ name := r, dt := targetDt c.conv (excOrig c.mcRen c.exc) (C17.origOf c.mcRen r) dt,
+             cells := (colT ((first :: rest).map (·.2.rows)).flatten i).map
+               (cast dt (targetDt c.conv (excOrig c.mcRen c.exc) (C17.origOf c.mcRen r) dt)) } : Col N D V)
+            ∈ a.cols := by
+  obtain ⟨a', hpart, hcontent⟩ := C17.loadPart_spec castCopy castAssign cast promote mode fs bs hbs c
+    (keepMc st c) c.mcRen sch first rest hnd hcast hprom hfiles h1 h2 h3 h4
+  have hkeep : ∀ r, (r ∈ jointNames c.merged (st.anExp ||| st.anMc) ∨ r ∈ c.keep) →
+      C17.origOf c.mcRen r ∈ keepMc st c := by
+    intro r hr
+    unfold keepMc
+    apply List.mem_append_right
+    rw [C17.new2orig_eq_map]
+    refine List.mem_map.mpr ⟨r, ?_, rfl⟩
+    rcases hr with h | h
+    · apply List.mem_append_left
+      rw [c17_jointNames_mem] at h ⊢
+      obtain ⟨s, hs, hbit⟩ := h
+      refine ⟨s, hs, ?_⟩
+      have hb : orCheck s (st.anExp ||| st.anMc) = true := by simpa [orCheck] using hbit
+      rw [c17_orCheck_or, Bool.or_eq_true] at hb
+      have hall : orCheck s (st.dpExp ||| st.anExp ||| st.dpMc ||| st.anMc) = true := by
+        rw [c17_orCheck_or, c17_orCheck_or, c17_orCheck_or]
+        rcases hb with h | h
+        · simp [h]
+        · simp [h]
+      simpa [orCheck] using hall
+    · exact List.mem_append_right _ h
+  have hreqnames : ∀ r ∈ jointNames c.merged (st.anExp ||| st.anMc),
+      r ∈ (tidyUp (jointNames c.merged (st.anExp ||| st.anMc) ++ c.keep) a').cols.map (·.name) := by
+    intro r hr
+    obtain ⟨hnk, horig⟩ := hreq r hr
+    obtain ⟨⟨f, dt⟩, hfm, hfn⟩ := List.mem_map.mp horig
+    obtain ⟨i, hi⟩ := List.getElem?_of_mem hfm
+    simp only at hfn
+    subst hfn
+    have := hcontent r hnk (hkeep r (Or.inl hr)) i dt hi
+    simp only [tidyUp, List.mem_map, List.mem_filter, decide_eq_true_eq]
+    exact ⟨_, ⟨this, List.mem_append_left _ hr⟩, rfl⟩
+  have hmiss : missingKeys ((tidyUp (jointNames c.merged (st.anExp ||| st.anMc) ++ c.keep) a').cols.map (·.name))
+      (jointNames c.merged (st.anExp ||| st.anMc)) = [] := by
+    rw [C17.missing_nil_iff]; exact hreqnames
+  refine ⟨tidyUp (jointNames c.merged (st.anExp ||| st.anMc) ++ c.keep) a', ?_, ?_⟩
+  · have hexp : loadPart (npyLoad castCopy castAssign cast promote mode fs bs) ([] : List P) (keepExp st c) c.expRen c
+        = .ok none := rfl
+    simp only [loadAndPrepare, loadAndPrepareWith, loadData]
+    rw [hexp, hpart]
+    simp [tidyOpt, assertFormat, hmiss]
+  · intro r hr hnk i dt hi
+    have := hcontent r hnk (hkeep r hr) i dt hi
+    simp only [tidyUp, List.mem_filter, decide_eq_true_eq]
+    refine ⟨this, ?_⟩
+    rcases hr with h | h
+    · exact List.mem_append_left _ h
+    · exact List.mem_append_right _ h
+
+/-- non-vacuity of `c17_end_to_end`: configuration table {0 ↦ ANALYSIS_EXP}, dictionary {5 → 0}, two
+files with the fields 5 and 9, memory-efficient mode with a re-open block of 2 rows: field 0 holds
+column 5 of all three rows in file order, field 9 is not loaded. -/
+example : loadAndPrepare (N := Nat) (D := Nat) (V := Nat) (P := Nat) ⟨1, 2, 4, 8⟩
+      (npyLoad (fun _ _ v => .ok v) (fun _ _ v => .ok v) (fun _ _ v => v) (fun a _ => a) .memory
+        (fun p => if p = 0 then some ⟨[(5, 0), (9, 0)], [[10, 20], [11, 21]]⟩
+                  else some ⟨[(5, 0), (9, 0)], [[12, 22]]⟩) 2)
+      (fun d => .ok d) ⟨[(0, 4)], [], [(5, 0)], [], [], [], none⟩ [0, 1] [] true =
+    .ok (some ⟨[⟨0, 0, [10, 11, 12]⟩], 3⟩, none) := by decide
+
+example : C17.origOf [((5 : Nat), 0)] 0 = 5 := by decide
 
 end endtoend
 
